@@ -93,7 +93,14 @@ def rg_cases(rng, tier):
         todo.append((shape, axes, shifts, rng.random() < 0.5, rng.random() < 0.2))
     for shape, axes, shifts, hc, wrong in todo:
         grid = _rand_grid(rng, shape)
-        rg = reciprocal_grid(grid, shift=shifts, axes=axes, halfcomplex=hc)
+        try:
+            rg = reciprocal_grid(grid, shift=shifts, axes=axes, halfcomplex=hc)
+        except Exception:
+            cs.add('{| g_grid := %s; g_axes := %s; g_shifts := %s; g_hc := %s; g_out := []; g_x0 := []; '
+                   'g_par := None; g_back := None |}' % (axqs(grid), nats(axes), bools(shifts), C.b(hc)),
+                   {'shape': shape, 'axes': axes, 'shifts': shifts, 'halfcomplex': hc,
+                    'outcome': 'reciprocal_grid raised'}, None)
+            continue
         odd = (shape[axes[-1]] % 2 == 1)
         if wrong:
             odd = not odd
@@ -690,9 +697,43 @@ def wavelet_probes(rng, tier, out):
                        % (name, L, pm, shape), snippet)
 
 
+def grid_probes(rng, tier, out):
+    """realspace_grid(reciprocal_grid(g)) == g, reciprocal stride 2 pi/(n s), FT range grid."""
+    todo = []
+    for n, sh, hc in itertools.product(range(2, 9 if tier == 'quick' else 14), [True, False], [False, True]):
+        todo.append(([n], [0], [sh], hc))
+    for _ in range(60 if tier == 'quick' else 300):
+        nd = rng.choice([2, 2, 3])
+        shape = [rng.randint(2, 7) for _ in range(nd)]
+        axes = _rand_axes(rng, nd)
+        todo.append((shape, axes, [rng.random() < 0.5 for _ in axes], rng.random() < 0.5))
+    for shape, axes, shifts, hc in todo:
+        mins = [rng.choice(DY_MIN) for _ in shape]
+        strides = [rng.choice(DY_STRIDE) for _ in shape]
+        snippet = (_PRE + "from odl.trafos.util import reciprocal_grid, realspace_grid\n"
+                   "mins, strides, shape, axes, shifts, hc = %r, %r, %r, %r, %r, %r\n"
+                   "g = odl.uniform_grid(mins, [m + (n - 1) * s for m, n, s in zip(mins, shape, strides)], shape)\n"
+                   "rg = reciprocal_grid(g, shift=shifts, axes=axes, halfcomplex=hc)\n"
+                   "par = 'odd' if shape[axes[-1]] %% 2 else 'even'\n"
+                   "back = realspace_grid(rg, g.min_pt, axes=axes, halfcomplex=hc, halfcx_parity=par)\n"
+                   "want = [2 * np.pi / (shape[a] * strides[a]) for a in axes]\n"
+                   "observed = [list(back.shape), back.min_pt.tolist(), back.max_pt.tolist(), [float(rg.stride[a]) for a in axes]]\n"
+                   "expected = [list(g.shape), g.min_pt.tolist(), g.max_pt.tolist(), want]\n"
+                   "ok = (back.shape == g.shape and np.allclose(back.min_pt, g.min_pt, atol=1e-12)\n"
+                   "      and np.allclose(back.max_pt, g.max_pt, atol=1e-12, rtol=1e-12)\n"
+                   "      and np.allclose([rg.stride[a] for a in axes], want, rtol=1e-12)\n"
+                   "      and all(rg.shape[i] == g.shape[i] for i in range(g.ndim) if not (hc and i == axes[-1]))\n"
+                   "      and (not hc or rg.shape[axes[-1]] == g.shape[axes[-1]] // 2 + 1))\n"
+                   % (mins, strides, shape, axes, shifts, hc))
+        _probe(out, 'grid-roundtrip%s-%s' % ('-hc' if hc else '', 'shifted' if all(shifts) else 'unshifted'),
+               'realspace_grid(reciprocal_grid(g)) == g and reciprocal stride = 2 pi/(n s): shape=%s axes=%s shift=%s '
+               'halfcomplex=%s' % (shape, axes, shifts, hc), snippet)
+
+
 def probes(rng, tier):
     C.setup_impl_path()
     out = []
+    grid_probes(rng, tier, out)
     dft_probes(rng, tier, out)
     backend_probes(rng, tier, out)
     ft_probes(rng, tier, out)
